@@ -93,8 +93,14 @@ def _gen_ops(rng, keys, n, tag):
         elif r < 0.71:
             ops.append(['clear'])
         elif r < 0.77:
-            ops.append(['update', [[rng.choice(keys), '%s.%d' % (v, j)] for j in range(rng.randint(1, 3))],
-                        rng.choice(['dict', 'pairs'])])
+            if isinstance(keys[0], str) and rng.random() < 0.4:
+                # positional part and keyword part in one call (string keys)
+                form = rng.choice(['both', 'bothdict'])
+                ops.append(['update', [[rng.choice(keys), '%s.%d' % (v, j)] for j in range(rng.randint(1, 2))], form,
+                            [[rng.choice(keys), '%s.k%d' % (v, j)] for j in range(rng.randint(1, 2))]])
+            else:
+                ops.append(['update', [[rng.choice(keys), '%s.%d' % (v, j)] for j in range(rng.randint(1, 3))],
+                            rng.choice(['dict', 'pairs', 'iter'])])
         elif r < 0.80:
             ops.append(['ior', [[rng.choice(keys), '%s.%d' % (v, j)] for j in range(rng.randint(1, 2))]])
         elif r < 0.85:
@@ -156,6 +162,7 @@ SWEEP_OPS = [
     ['set', 1, 'A'], ['set', 3, 'B'], ['get', 1], ['get', 3], ['getd', 3, 'dflt'], ['setdefault', 3, 'C'],
     ['del', 1], ['pop', 2], ['popitem'], ['clear'], ['update', [[3, 'D'], [1, 'E']], 'pairs'],
     ['ior', [[3, 'F']]], ['in', 1], ['len'], ['dict'], ['eq', [[1, 'p0'], [2, 'p1']]], ['copy'],
+    ['update', [[3, 'G']], 'both', [['kw', 'H']]],
 ]
 _FIXED = {}
 
@@ -166,6 +173,8 @@ def _retag(op, tag):
         op[2] = tag + op[2]
     elif op[0] in ('update', 'ior'):
         op[1] = [[k, tag + v] for k, v in op[1]]
+        if len(op) > 3:
+            op[3] = [[k, tag + v] for k, v in op[3]]
     return op
 
 
